@@ -161,6 +161,22 @@ def r17c(ctx):
     ok = len(ip) == 1 and [u(a) for a in ip[0].args] == [g.args.args[0].arg, "fft_times", "fft_values"] and u(kwargs_of(ip[0]).get("period")) == "length"
     ctx.check(ok, "R17c", f"{FFT}.__init__.<{g.name}>", "values at the requested absolute times are read off the periodic grid (np.interp with period = grid span)", u(ip[0]) if ip else "",
               key_detail="periodic interpolation")
+    # the periodic grid on which the inverse FFT lives has exactly the constructor's sampling step: with end - start = (N-1) dt and n_all = unique*N,
+    # length must equal (n_all - 1) dt so that linspace(start, start + length, n_all) steps by dt
+    genv = local_env(g)
+    N_ = "NPTS"
+    sub = {"self._fft_end": parse_expr(f"self._fft_start + ({N_} - 1)*self._dt"), "self._n_all_freqs": parse_expr(f"self._unique*{N_}")}
+    ok = "length" in genv and "fft_times" in genv
+    if ok:
+        got = NF({}, {}).nf(genv["length"])
+        # substitute the constructor's relations (attribute atoms) by re-parsing the text
+        txt_len = u(genv["length"]).replace("self._fft_end", f"(self._fft_start + ({N_} - 1)*self._dt)")
+        got = NF().nf(parse_expr(txt_len))
+        want = NF().nf(parse_expr(f"(self._unique*{N_} - 1)*self._dt"))
+        ft = genv["fft_times"]
+        ok = got.equals(want) and is_call(ft, func="np.linspace") and [u(a) for a in ft.args] == ["self._fft_start", "self._fft_start + length", "self._n_all_freqs"]
+    ctx.check(ok, "R17c", f"{FFT}.__init__.<{g.name}>", "the FFT time grid spans (n_all - 1) sampling steps over n_all points: its spacing is the constructor's dt for every uniqueness factor",
+              u(genv.get("length")) if "length" in genv else "", key_detail="fft grid spacing")
     z = [n for n in strip_doc(g) if isinstance(n, ast.If) and u(n.test) == "self._n_freqs == 0"]
     ok = len(z) == 1 and u(z[0].body[0]) == f"return np.zeros(len({g.args.args[0].arg}))"
     ctx.check(ok, "R17c", f"{FFT}.__init__.<{g.name}>", "an empty band gives an all-zero waveform of the requested length", "", key_detail="empty band")
@@ -247,6 +263,8 @@ def run(ctx):
 
 SELFTEST = {
     "faults": [
+        {"name": "FFT trace length 'simplified'", "file": "pyrex/signals.py", "old": "            length = ((self._fft_end-self._fft_start+self._dt) * self._unique\n                      - self._dt)",
+         "new": "            length = (self._fft_end-self._fft_start) * self._unique", "rule": "R17c"},
         {"name": "< for <= in one copy of the band mask", "file": "pyrex/signals.py", "old": "            band = (all_freqs>=self.f_min) & (all_freqs<=self.f_max)", "new": "            band = (all_freqs>=self.f_min) & (all_freqs<self.f_max)",
          "rule": "R17a"},
         {"name": "4 k_B T R", "file": "pyrex/signals.py", "old": "            self.rms = np.sqrt(scipy.constants.k * temperature * resistance\n                               * (self.f_max - self.f_min))",
